@@ -681,6 +681,36 @@ def r7(ctx, sc):
 
 # ---------------------------------------------------------------- driver
 
+def r9(ctx):
+    """R9: start-condition (and definition) names are looked up by their complete spelling.  In sym.c every function that
+    compares the `name` field of a hash_entry with a key decides equality with strcmp(): a length-limited comparison
+    (strncmp/memcmp with the length of one side) makes a name that is a prefix of another one hit the other's entry when the
+    two share a hash bucket - rules written for <c1> are then attached to c18."""
+    rep = ctx.rep; P = ctx.flex
+    n = 0
+    import genutil
+    for f in genutil.fns(P):
+        if not f.blocks or not (f.file or '').endswith('sym.c'): continue
+        res = ir.Resolver(f)
+        for c in f.ins:
+            if c.op != 'call' or c.callee not in ('strcmp', 'strncmp', 'memcmp', 'strcasecmp', 'strncasecmp', 'bcmp'): continue
+            uses_name = False
+            for o in c.ops:
+                d = f.def_of(o) if isinstance(o, tuple) and o[0] == 'reg' else None
+                if d is not None and d.op == 'load':
+                    cl = ir.loc_class(res.loc(d.ops[0]))
+                    if cl and cl[0] == 'field' and cl[1] == 'hash_entry' and cl[2] == 'name': uses_name = True
+            if not uses_name: continue
+            n += 1
+            if c.callee == 'strcmp':
+                rep.ok('C05.R9', 'sym.c %s@%s: symbol-table keys are compared with strcmp (complete names)' % (f.name, c.line))
+            else:
+                rep.fail('C05.R9', 'C05.R9:sym.c:%s:name-compared-with-%s' % (f.name, c.callee), where(c),
+                         '%s() compares a symbol-table entry name with %s(): names are no longer matched by their complete spelling, so a start condition '
+                         '(or definition) whose name is a prefix of another one in the same hash bucket is resolved to the other entry' % (f.name, c.callee),
+                         replay_input='%x ' + ' '.join('c%d' % i for i in range(20)) + '\n%%\n<c1>x  { return 1; }\n<c18>x { return 18; }\n')
+    return n
+
 def run(ctx):
     rep = ctx.rep
     vs = ctx.variants()
@@ -704,6 +734,8 @@ def run(ctx):
         if k and sc.calls(scanner_yylex(sc), 'yywrap'): backs7.add(v.backend)
         n7 += k
     n3 = r3(ctx)
+    r9(ctx)
+    rep.floor('C05.R9', 1, 'findsym() in sym.c')
     rep.require(backs >= {'nr', 'r', 'cxx', 'c99', 'go'}, 'C05.R2 ran only on back ends %s' % sorted(backs))
     rep.require(backs6 >= {'nr', 'r', 'cxx', 'c99', 'go'}, 'C05.R6 found a first-call initialisation of the start state only in back ends %s' % sorted(backs6))
     rep.require(backs7 >= {'nr', 'r', 'cxx', 'c99', 'go'}, 'C05.R7 found a yylex that calls yywrap only in back ends %s' % sorted(backs7))
